@@ -608,10 +608,114 @@ func c10sValidatePremise(t *testing.T, o *vOut) {
 	}
 }
 
+// ListStatement renders statements with pkg/server's own toStatementApi, ListPolicy and
+// ListPolicyAssignment with internal/pkg/table's (which the table harness compares, field by field, with
+// what was configured): the two listings of one statement must be the same message.  Every match option
+// and every field is drawn independently.
+func c10sListingCrossCheck(o *vOut, r *vRand) {
+	n := 3000
+	if o.thorough {
+		n = 20000
+	}
+	optsR := []oc.MatchSetOptionsRestrictedType{"", "any", "invert"}
+	opts := []oc.MatchSetOptionsType{"", "any", "all", "invert"}
+	cmp := []oc.AttributeComparison{"attribute-eq", "attribute-ge", "attribute-le", "eq", "ge", "le"}
+	for i := 0; i < n; i++ {
+		st := oc.Statement{Name: fmt.Sprintf("s%d", i)}
+		c, bc, a := &st.Conditions, &st.Conditions.BgpConditions, &st.Actions.BgpActions
+		if r.chance(50) {
+			c.MatchPrefixSet = oc.MatchPrefixSet{PrefixSet: "ps", MatchSetOptions: optsR[r.intn(3)]}
+		}
+		if r.chance(50) {
+			c.MatchNeighborSet = oc.MatchNeighborSet{NeighborSet: "ns", MatchSetOptions: optsR[r.intn(3)]}
+		}
+		if r.chance(40) {
+			bc.MatchAsPathSet = oc.MatchAsPathSet{AsPathSet: "as", MatchSetOptions: opts[r.intn(4)]}
+		}
+		if r.chance(40) {
+			bc.MatchCommunitySet = oc.MatchCommunitySet{CommunitySet: "cs", MatchSetOptions: opts[r.intn(4)]}
+		}
+		if r.chance(40) {
+			bc.MatchExtCommunitySet = oc.MatchExtCommunitySet{ExtCommunitySet: "es", MatchSetOptions: opts[r.intn(4)]}
+		}
+		if r.chance(40) {
+			bc.MatchLargeCommunitySet = oc.MatchLargeCommunitySet{LargeCommunitySet: "ls", MatchSetOptions: opts[r.intn(4)]}
+		}
+		if r.chance(30) {
+			bc.CommunityCount = oc.CommunityCount{Operator: cmp[r.intn(6)], Value: uint32(r.intn(4))}
+		}
+		if r.chance(30) {
+			bc.AsPathLength = oc.AsPathLength{Operator: cmp[r.intn(6)], Value: uint32(r.intn(4))}
+		}
+		if r.chance(30) {
+			bc.RpkiValidationResult = []oc.RpkiValidationResultType{"valid", "invalid", "not-found", "none"}[r.intn(4)]
+		}
+		if r.chance(30) {
+			bc.RouteType = []oc.RouteType{"internal", "external", "local"}[r.intn(3)]
+		}
+		if r.chance(30) {
+			bc.OriginEq = []oc.BgpOriginAttrType{"igp", "egp", "incomplete"}[r.intn(3)]
+		}
+		if r.chance(30) {
+			bc.NextHopInList = []netip.Addr{netip.MustParseAddr("10.0.0.1"), netip.MustParseAddr("2001:db8::1")}[:1+r.intn(2)]
+		}
+		if r.chance(30) {
+			bc.AfiSafiInList = []oc.AfiSafiType{"ipv4-unicast", "ipv6-unicast", "l3vpn-ipv4-unicast"}[:r.intn(4)]
+		}
+		if r.chance(30) {
+			bc.LocalPrefEq = uint32(r.pick(100, 200))
+		}
+		if r.chance(30) {
+			bc.MedEq = uint32(r.pick(10, 100))
+		}
+		st.Actions.RouteDisposition = []oc.RouteDisposition{"none", "accept-route", "reject-route", ""}[r.intn(4)]
+		setop := []string{"add", "remove", "replace", "add"} // as Statement.ToConfig writes them
+		if r.chance(35) {
+			a.SetCommunity = oc.SetCommunity{Options: setop[r.intn(4)], SetCommunityMethod: oc.SetCommunityMethod{CommunitiesList: []string{"65000:1", "65000:2"}[:r.intn(3)]}}
+		}
+		if r.chance(35) {
+			a.SetExtCommunity = oc.SetExtCommunity{Options: setop[r.intn(4)], SetExtCommunityMethod: oc.SetExtCommunityMethod{CommunitiesList: []string{"rt:65000:1", "soo:65000:2"}[:r.intn(3)]}}
+		}
+		if r.chance(35) {
+			a.SetLargeCommunity = oc.SetLargeCommunity{Options: oc.BgpSetCommunityOptionType(setop[r.intn(3)]), SetLargeCommunityMethod: oc.SetLargeCommunityMethod{CommunitiesList: []string{"1:2:3", "4:5:6"}[:r.intn(3)]}}
+		}
+		if r.chance(35) {
+			a.SetMed = []oc.BgpSetMedType{"100", "+10", "-10", "+0", "0"}[r.intn(5)]
+		}
+		if r.chance(30) {
+			a.SetLocalPref = uint32(r.pick(50, 200))
+		}
+		if r.chance(30) {
+			a.SetAsPathPrepend = oc.SetAsPathPrepend{As: []string{"65001", "last-as", "4200000001"}[r.intn(3)], RepeatN: uint8(r.pick(0, 1, 5, 255))}
+		}
+		if r.chance(30) {
+			a.SetNextHop = []oc.BgpNextHopType{"self", "peer-address", "unchanged", "10.0.0.9", "2001:db8::9"}[r.intn(5)]
+		}
+		if r.chance(30) {
+			a.SetRouteOrigin = []oc.BgpOriginAttrType{"igp", "egp", "incomplete"}[r.intn(3)]
+		}
+		viaStatement := toStatementApi(&st)
+		viaPolicy := table.ToPolicyApi(&oc.PolicyDefinition{Name: "p", Statements: []oc.Statement{st}}).Statements[0]
+		o.stat("listing_cross_checks", 1)
+		if a, b := viaStatement.String(), viaPolicy.String(); a != b {
+			i := 0
+			for i < len(a) && i < len(b) && a[i] == b[i] {
+				i++
+			}
+			lo := i - 80
+			if lo < 0 {
+				lo = 0
+			}
+			o.fail("listing-differs:ListStatement-vs-ListPolicy", map[string]any{"configured": st, "ListStatement": a[lo:min(len(a), i+120)], "ListPolicy": b[lo:min(len(b), i+120)]})
+		}
+	}
+}
+
 func TestVerifC10Sites(t *testing.T) {
 	o := vOpen(t)
 	defer o.close()
 	c10sValidatePremise(t, o)
+	c10sListingCrossCheck(o, &vRand{s: o.seed*49979687 + 10})
 	r := &vRand{s: o.seed*32452843 + 10}
 	logger := slog.New(slog.NewTextHandler(io.Discard, nil))
 	g := &oc.Global{}
